@@ -593,7 +593,10 @@ def contains(eng, st, x, c, line):
         else:
             yield st, z3.BoolVal(False)
     elif k in ('bytes', 'bytearray'):
-        raise core.EngineError('in on bytes')
+        if x.ty.kind in ('bytes', 'bytearray'):
+            yield st, z3.Contains(c.t, x.t)
+        else:
+            yield st, R('TypeError', line)       # str in bytes
     else:
         yield st, R('TypeError', line)
 
@@ -607,7 +610,9 @@ def typed_dict_elem(eng, st, c, key, val_t):
     vt = c.ty.args[1]
     typed = c.ty.args[2] if len(c.ty.args) > 2 else ()
     if vt.kind != 'any' or not typed:
-        return V(vt, val_t)
+        v = V(vt, val_t)
+        eng.wf_ref(st, v)
+        return v
     ks = z3.simplify(key.t) if key.ty.kind == 'str' else None
     if ks is not None and z3.is_string_value(ks):
         kk = ks.as_string()
@@ -688,7 +693,9 @@ def index(eng, st, o, i, line):
             else:
                 idx = z3.If(it >= 0, it, it + n)
             if k == 'list':
-                yield s1, V(o.ty.args[0], o.t[idx])
+                v = V(o.ty.args[0], o.t[idx])
+                eng.wf_ref(s1, v)
+                yield s1, v
             elif k == 'str':
                 yield s1, vstr(z3.SubString(o.t, idx, 1))
             else:
@@ -758,12 +765,13 @@ def setitem(eng, st, o, i, v, line):
         eng.fact(st, card(ndom) == card(dom) + z3.If(z3.Select(dom, i.t), 0, 1))
         yield st, V(o.ty, (ndom, z3.Store(mp, i.t, box(v2) if vt.kind == 'any' else v2.t)))
     else:
-        raise core.EngineError('item store on %r at line %d' % (o.ty, line))
+        yield st, R('TypeError', line)
 
 
 def delitem(eng, st, o, i, line):
     if o.ty.kind != 'dict':
-        raise core.EngineError('del on %r at line %d' % (o.ty, line))
+        yield st, R('TypeError', line)
+        return
     kt = o.ty.args[0]
     if i.ty != kt:
         i = eng.coerce(i, kt)
@@ -795,7 +803,7 @@ def unpack(eng, st, v, n, line):
             else:
                 yield s1, R('ValueError', line)
     else:
-        raise core.EngineError('unpacking %r at line %d' % (v.ty, line))
+        yield st, R('TypeError', line)
 
 
 def iterate(eng, st, s, xs):
@@ -1234,7 +1242,7 @@ def _float(eng, st, args, kwargs, line):
     if v.ty.kind in ('int', 'bool', 'real'):
         yield st, eng.coerce(v, REAL)
     else:
-        raise core.EngineError('float() of %r' % (v.ty,))
+        yield st, R('TypeError', line)
 
 
 @lib('str')
@@ -1263,7 +1271,7 @@ def _bytes(eng, st, args, kwargs, line):
         for s1, u in eng.split_any(st, v):
             yield from _bytes(eng, s1, [u], kwargs, line)
     else:
-        raise core.EngineError('bytes() of %r' % (v.ty,))
+        yield st, R('TypeError', line)
 
 
 @lib('bytearray')
@@ -1308,7 +1316,7 @@ def _getattr(eng, st, args, kwargs, line):
         sch = eng.reg.schemas.get(sch.base) if sch.base else None
     rest = st
     for m in cands:
-        s1 = eng.assume(rest, name.t == z3.StringVal(m))
+        s1 = eng.assume(rest, name.t == z3.StringVal(m), precise=True)
         if s1 is not None:
             yield from eng.getattr(s1, o, m, line)
         rest = eng.assume(rest, name.t != z3.StringVal(m))
@@ -1628,7 +1636,8 @@ def _b64decode(eng, st, args, kwargs, line):
         if st.spec:
             yield st, R('TypeError', line)
             return
-        raise core.EngineError('b64decode of %r' % (v.ty,))
+        yield st, R('TypeError', line)
+        return
     for s1, ok in eng.fork(st, b64dec_ok(v.t)):
         if ok:
             yield s1, V(BYTES, b64dec(v.t))
